@@ -64,6 +64,7 @@ func TestC08(t *testing.T) {
 	c08Concurrent(run)
 	c08Undeletable(run)
 	c08WriteFaults(run)
+	c13PartialWrites(run, run.Rand()) // the same runs, judged for C08: acknowledged records are there, whole and once
 	c08Crash(run)
 }
 
